@@ -113,9 +113,6 @@ func (c *FnCtx) appendModel(st *State, s Term, et types.Type, elems []Term, src 
 		var srcSel string
 		if srcIsString {
 			srcSel = fmt.Sprintf("(strat %s (- j (+ %s %s)))", src.S, noff, ln)
-			if c.mode == ModeBV {
-				srcSel = "((_ int2bv 8) " + srcSel + ")"
-			}
 		} else {
 			srcSel = fmt.Sprintf("(select (select %s %s) (+ %s (- j (+ %s %s))))", A, slArr(src.S), slOff(src.S), noff, ln)
 		}
@@ -143,9 +140,6 @@ func (c *FnCtx) copyModel(st *State, d, s Term, et types.Type, srcIsString bool)
 	var srcSel string
 	if srcIsString {
 		srcSel = fmt.Sprintf("(strat %s (- j %s))", s.S, doff)
-		if c.mode == ModeBV {
-			srcSel = "((_ int2bv 8) " + srcSel + ")"
-		}
 	} else {
 		srcSel = fmt.Sprintf("(select (select %s %s) (+ %s (- j %s)))", A, slArr(s.S), slOff(s.S), doff)
 	}
@@ -203,7 +197,7 @@ func (c *FnCtx) bytesOf(v Term, t types.Type) []string {
 	}
 	if c.mode == ModeBV { // Int-sorted value in bv mode (int/uint): bytes must be bv8
 		for i := range out {
-			out[i] = "((_ int2bv 8) " + out[i] + ")"
+			out[i] = "(i2b8 " + out[i] + ")"
 		}
 	}
 	return out
@@ -246,7 +240,7 @@ func (c *FnCtx) fromBytes(bs []string, t types.Type) Term {
 	var parts []string
 	for i, b := range bs {
 		if c.mode == ModeBV {
-			b = "(bv2nat " + b + ")"
+			b = "(b2i8 " + b + ")"
 		}
 		if i == 0 {
 			parts = append(parts, b)
